@@ -80,10 +80,15 @@ Step(e) ==
     [] e.ev = "verdict" ->
          \* instance of Relay!Validate / Relay!DaisyHandle with captured validator e.h
          /\ e.m \in pub \ verdicted
-         /\ e.h \in poss[e.m] \cap HandlerKinds
-         /\ LET o == Outcome(tr, Dev, e.h, cl[e.m]) IN
-              /\ o.called /\ o.f = e.f
-              /\ acc' = IF o.relay THEN acc \cup {e.m} ELSE acc
+         /\ IF e.h \in poss[e.m] \cap HandlerKinds
+            THEN LET o == Outcome(tr, Dev, e.h, cl[e.m]) IN
+                   /\ o.called /\ o.f = e.f
+                   /\ acc' = IF o.relay THEN acc \cup {e.m} ELSE acc
+            \* STALE VERDICT: m was judged by a handler B cannot have had installed between publish(m) and now (a
+            \* validator left behind by an earlier SetConsensusHandler).  The step is taken so that the rest of the trace
+            \* is still checked; whatever that handler answered, nothing entitles B to relay m: an arrival of m is then
+            \* unexplained (the trace is rejected AT THE ARRIVAL, which is what the check reports as a violation)
+            ELSE acc' = acc
          /\ verdicted' = verdicted \cup {e.m}
          /\ Forget(e.m)
          /\ UNCHANGED <<tr, cur, pub, arr>>
